@@ -119,6 +119,28 @@ pub fn run(ctx: &mut Ctx) {
             None => ctx.case(6, "MatrixCard::new digits (tape exhausted)", &[&dt, &(n_digits as u16).to_le_bytes()], &[&[2]]),
         }
     }
+    // boundary draws for the convenience generators: the value handed out must be the drawn bytes for EVERY
+    // draw, also at the ends of the range (a clamp, a modulo or a rejection of the top values shows here)
+    let mut specials: Vec<Vec<u8>> = vec![vec![0xff; 40], vec![0x00; 40], vec![0x80; 40], vec![0x7f; 40]];
+    for w in [0xFFFF_FFFFu32, 0xFFFF_FFFE, 0xFFE0_00FF, 0xFFE0_0100, 0xFFE0_00FE, 0xFFFF_FFF9, 0xFFFF_FFFA, 0x8000_0000, 0x7FFF_FFFF, 1, 3_628_800, 3_628_799, 0xFFFF_0000, 0x0000_FFFF] {
+        let mut t = w.to_le_bytes().to_vec(); t.extend(rng.bytes(36)); specials.push(t);
+        let mut t = rng.bytes(4); t.extend(w.to_le_bytes()); t.extend(rng.bytes(32)); specials.push(t);   // high half of a u64 draw
+    }
+    for t4 in &specials {
+        for m in 0..3u8 {
+            let (s, used, _) = with_tape(t4, || match m { 0 => wow_srp::vanilla_header::ProofSeed::new().seed(), 1 => wow_srp::tbc_header::ProofSeed::new().seed(), _ => wow_srp::wrath_header::ProofSeed::new().seed() });
+            if let Some(s) = s { ctx.case(1, &format!("ProofSeed::new module {}, boundary draw", m), &[t4], &[&[0], &s.to_le_bytes(), &(used as u32).to_le_bytes()]); }
+        }
+        let (s, used, _) = with_tape(t4, wow_srp::pin::get_pin_grid_seed);
+        if let Some(s) = s { ctx.case(2, "get_pin_grid_seed, boundary draw", &[t4], &[&[0], &s.to_le_bytes(), &(used as u32).to_le_bytes()]); }
+        let (s, used, _) = with_tape(t4, wow_srp::pin::get_pin_salt);
+        if let Some(s) = s { ctx.case(3, "get_pin_salt, boundary draw", &[t4], &[&[0], &s, &(used as u32).to_le_bytes()]); }
+        let (s, used, _) = with_tape(t4, wow_srp::matrix_card::get_matrix_card_seed);
+        if let Some(s) = s { ctx.case(4, "get_matrix_card_seed, boundary draw", &[t4], &[&[0], &s.to_le_bytes(), &(used as u32).to_le_bytes()]); }
+        let (s, used, _) = with_tape(t4, wow_srp::integrity::get_salt_value);
+        if let Some(s) = s { ctx.case(5, "integrity get_salt_value, boundary draw", &[t4], &[&[0], &s, &(used as u32).to_le_bytes()]); }
+        ctx.oracle_runs += 7;
+    }
     ctx.sample("tape-injected: registration(32) into_proof(32) client(32) into_server(16 only if accepted) 3 x [client reconnect(16) + server refresh(16)]; seeds 4/4/8, salts 16, card digits via Uniform(0..=9) rejection sampling".to_string());
 
     // ---------------- (b) statistics over the real RNG (no tape) ----------------
